@@ -173,6 +173,71 @@ def generate_pybind(text, top=('',), ignore=('',), boost=False):
     return w.wrap_file(text)
 
 
+FULL_TEMPLATE = ('{includes}\n{boost_class_export}\n{module_def} {{\n  m_.doc() = "{module_name}";\n{submodules_init}\n'
+                 '{wrapped_namespace}\n}}\n')
+
+
+def _first_template_args(text, opener):
+    out = []
+    i = text.find(opener)
+    while i >= 0:
+        j = i + len(opener)
+        d = 0
+        k = j
+        while k < len(text):
+            c = text[k]
+            if c == '<':
+                d += 1
+            elif c == '>':
+                if d == 0:
+                    break
+                d -= 1
+            elif c == ',' and d == 0:
+                break
+            k += 1
+        out.append(text[j:k].strip())
+        i = text.find(opener, k)
+    return out
+
+
+def tu_sequence(rep):
+    """every translation unit of a multi-file project (one wrapper object, serialization on, as scripts/pybind_wrap.py drives it)
+    exports and typedefs only classes that the same unit binds: nothing of an earlier file leaks into a later unit"""
+    import re
+    from gtwrap.pybind_wrapper import PybindWrapper
+    from gen import scope
+    texts = [scope.build(((sh, pi, nm),)) for sh, pi, nm in (('serial', 1, 'A'), ('vserial', 0, 'B'), ('plain', 2, 'A'), ('serial', 0, 'C'))]
+    texts.append("namespace ns1 {\ntemplate<T = {double}, U = {int, bool}>\nclass Pair {\n  Pair();\n  void serialize() const;\n};\n}\n")
+    seqs = [[0, 1, 2], [4, 2, 3], [1, 0], [3, 4, 1]]
+    for seq in seqs:
+        w = PybindWrapper(module_name='m', top_module_namespaces=[''], ignore_classes=[''], use_boost_serialization=True,
+                          module_template=FULL_TEMPLATE)
+        for k, ti in enumerate(seq):
+            rep.bounded['evaluations'] += 1
+            tu = w.wrap_file(texts[ti], module_name='part%d' % k)
+            rep.bounded['distinct'].add(('tu', tuple(seq[:k + 1])))
+            bound = set(_first_template_args(tu, 'py::class_<'))
+            bound_flat = {re.sub(r'[,:<> ]', '', b) for b in bound} | bound
+            for name in re.findall(r'BOOST_CLASS_EXPORT\((.*?)\)\n', tu):
+                if name not in bound_flat:
+                    rep.violation('py:tu-export-of-foreign-class',
+                                  'unit %d of a %d-file project exports %s, which this unit neither includes nor binds' % (k, len(seq), name),
+                                  dict(kind='pybind-tu-sequence', texts=[texts[i] for i in seq], index=k, name=name))
+
+
+def replay_tu(obj):
+    import re
+    from gtwrap.pybind_wrapper import PybindWrapper
+    w = PybindWrapper(module_name='m', top_module_namespaces=[''], ignore_classes=[''], use_boost_serialization=True,
+                      module_template=FULL_TEMPLATE)
+    tu = ''
+    for k, t in enumerate(obj['texts'][:obj['index'] + 1]):
+        tu = w.wrap_file(t, module_name='part%d' % k)
+    print('unit %d:' % obj['index'])
+    print('\n'.join(l for l in tu.split('\n') if 'BOOST_CLASS_EXPORT' in l or 'py::class_<' in l))
+    return 1 if ('BOOST_CLASS_EXPORT(%s)' % obj['name']) in tu else 0
+
+
 def ident(r):
     k = r[0]
     if k == 'class':
@@ -234,7 +299,8 @@ def scope_modules(n, seed):
     import gtwrap.interface_parser as ip
     from gen.iface import abs_module
     from gen.scope import PY_SCENARIOS
-    for t in PY_SCENARIOS:
+    from gen import scope as _scope
+    for t in list(PY_SCENARIOS) + [_scope.build(sp) for sp in _scope.core_specs()]:
         try:
             m = abs_module(ip.Module.parseString(t))
         except Exception:
